@@ -4,6 +4,7 @@
 mod common;
 mod consts;
 mod fsop;
+mod ffi;
 mod consts_more;
 mod c03;
 mod c04;
@@ -11,6 +12,8 @@ mod c08;
 mod c09;
 mod c17;
 mod c18;
+mod c19;
+mod c19mt;
 mod c18_wdt;
 mod c18_wdl;
 
@@ -69,6 +72,8 @@ fn main() {
                 "C09" => c09::run(&mut ctx),
                 "C17" => c17::run(&mut ctx),
                 "C18" => c18::run(&mut ctx),
+                "C19" => c19::run(&mut ctx),
+                "C19MT" => c19mt::run(&mut ctx),
                 _ => {
                     eprintln!("unknown property {prop}");
                     std::process::exit(2);
